@@ -162,6 +162,17 @@ type asmOp struct {
 	refS8    bool   // the reference is an 8-bit relative one
 }
 
+// emitBytesAndScribble: the data slice is the caller's; after the call it is overwritten (a reused scratch
+// buffer): what was emitted and what the listings show must not change with it.
+func emitBytesAndScribble(e *asm.Emitter, d []byte) {
+	defer func() {
+		for i := range d {
+			d[i] = 0xEE
+		}
+	}()
+	e.EmitBytes(d)
+}
+
 func dataBlock(n int) []byte {
 	b := make([]byte, n)
 	for i := range b {
@@ -224,7 +235,7 @@ func asmAlphabet() []asmOp {
 	}
 	for _, n := range []int{0, 1, 15, 16, 17, 33} {
 		n := n
-		ops = append(ops, asmOp{name: fmt.Sprintf("EmitBytes(%d)", n), real: func(e *asm.Emitter) { e.EmitBytes(dataBlock(n)) },
+		ops = append(ops, asmOp{name: fmt.Sprintf("EmitBytes(%d)", n), real: func(e *asm.Emitter) { emitBytesAndScribble(e, dataBlock(n)) },
 			model: func(m *asmModel) bool { return !m.emit(itData, dataBlock(n), -1) }, kind: itData})
 	}
 	for _, c := range []string{"", "short", longComment} {
@@ -318,6 +329,8 @@ func asmDynamicOp(name string) (asmOp, bool) {
 		return asmOp{name: name, kind: itComment, real: func(e *asm.Emitter) { e.AssumeSEP(asm.Flags(v)) }, model: func(m *asmModel) bool { m.p |= byte(v); return false }}, true
 	case scan(name, "AssumeREP($%02x)", &v):
 		return asmOp{name: name, kind: itComment, real: func(e *asm.Emitter) { e.AssumeREP(asm.Flags(v)) }, model: func(m *asmModel) bool { m.p &^= byte(v); return false }}, true
+	case name == "EmitBytes(300)":
+		return asmOp{name: name, kind: itData, real: func(e *asm.Emitter) { emitBytesAndScribble(e, dataBlock(300)) }, model: func(m *asmModel) bool { return !m.emit(itData, dataBlock(300), -1) }}, true
 	case scan(name, "SetBase($%06x)", &v):
 		return asmOp{name: name, kind: itComment, real: func(e *asm.Emitter) { e.SetBase(v) }, model: func(m *asmModel) bool { m.setBase(v); return false }}, true
 	}
